@@ -374,3 +374,7 @@ Definition decode_graph (T : table) (s : str) (compat attribute : bool) : res dm
 Definition decoder (T : table) (s : str) (compat attribute : bool) : res (str * list amap) :=
   do m <- decode_graph T s compat attribute;
   mol_to_smiles m.
+
+(* the value returned when attribute=False: the string only *)
+Definition decoder_str (T : table) (s : str) (compat : bool) : res str :=
+  match decoder T s compat false with Ok (o, _) => Ok o | Err e => Err e end.
